@@ -52,6 +52,8 @@ type gstate struct {
 	pools    []vpool
 	assigner map[string]int // registered free-storage assigner name -> key index
 	markerN  int64
+	noncePlan []int64 // fresh marker nonces still to be used, in the order they will be redeemed
+	redeemed  []int64 // nonces of markers that were redeemed
 	wallet   map[int]bool // multisig wallets registered
 	proposal int
 	auths    []int // authorizer indices (zcnsc)
@@ -363,7 +365,7 @@ func (g *gstate) freeStorage() {
 		if g.r.Intn(6) == 0 {
 			who, note = g.client(), "assigner-added-by-non-owner"
 		}
-		in := j(map[string]interface{}{"name": name, "public_key": keys.signer[k].pk, "individual_limit": 20.0, "total_limit": 50.0})
+		in := j(map[string]interface{}{"name": name, "public_key": keys.signer[k].pk, "individual_limit": 20.0, "total_limit": 5000.0})
 		st, _, _ := g.emit(call{typ: "sc", sender: who, to: iStorage, fn: "add_free_storage_assigner", fee: g.fee(), in: in, note: note})
 		if st == "success" {
 			g.assigner[name] = k
@@ -380,24 +382,39 @@ func (g *gstate) freeStorage() {
 	}
 	recipient := g.client()
 	sender := recipient
-	g.markerN++
-	nonce := g.markerN
-	tokens := float64(1+g.r.Intn(8)) / 2
+	// nonces: batches of fresh nonces redeemed in DECREASING or shuffled order (the contract keeps the redeemed
+	// nonces in redemption order, not sorted), interleaved with properly signed replays of nonces already redeemed
+	if len(g.noncePlan) == 0 {
+		base := g.markerN
+		n := 3 + g.r.Intn(4)
+		g.markerN += int64(n) + int64(g.r.Intn(3))
+		for k := 0; k < n; k++ {
+			g.noncePlan = append(g.noncePlan, base+int64(n-k)) // decreasing
+		}
+		if g.r.Intn(3) == 0 {
+			g.r.Shuffle(len(g.noncePlan), func(a, b int) { g.noncePlan[a], g.noncePlan[b] = g.noncePlan[b], g.noncePlan[a] })
+		}
+	}
+	tokens := float64(1+g.r.Intn(8)) / 8
 	signKey := key
 	tamper := ""
-	switch g.r.Intn(12) {
-	case 0:
-		tamper, signKey = "signed-by-non-assigner", 2
-	case 1:
-		tamper, sender = "used-by-non-recipient", g.client()
-	case 2:
-		tamper, nonce = "replayed-nonce", 1
-	case 3:
-		tamper, tokens = "over-individual-limit", 25
-	case 4:
-		tamper, name = "unknown-assigner", "nobody"
-	case 5:
-		tamper = "amount-changed-after-signing"
+	var nonce int64
+	if len(g.redeemed) > 0 && g.r.Intn(3) == 0 {
+		tamper, nonce = "replayed-nonce", g.redeemed[g.r.Intn(len(g.redeemed))]
+	} else {
+		nonce, g.noncePlan = g.noncePlan[0], g.noncePlan[1:]
+		switch g.r.Intn(16) {
+		case 0:
+			tamper, signKey = "signed-by-non-assigner", 2
+		case 1:
+			tamper, sender = "used-by-non-recipient", g.client()
+		case 3:
+			tamper, tokens = "over-individual-limit", 25
+		case 4:
+			tamper, name = "unknown-assigner", "nobody"
+		case 5:
+			tamper = "amount-changed-after-signing"
+		}
 	}
 	ids := make([]string, 6)
 	for i := 0; i < 6; i++ {
@@ -409,8 +426,11 @@ func (g *gstate) freeStorage() {
 	}
 	marker := j(map[string]interface{}{"assigner": name, "recipient": x.idOf(recipient), "free_tokens": tokens, "nonce": nonce, "signature": sig, "blobbers": ids})
 	in := j(map[string]interface{}{"recipient_public_key": ucl[recipient].PublicKey, "marker": marker})
-	g.emit(call{typ: "sc", sender: sender, to: iStorage, fn: "free_allocation_request", fee: g.fee(), in: in, note: tamper,
+	st, _, _ := g.emit(call{typ: "sc", sender: sender, to: iStorage, fn: "free_allocation_request", fee: g.fee(), in: in, note: tamper,
 		grant: &grantInfo{Assigner: name, SignerKey: signKey, Tokens: uint64(tokens * 1e10), Nonce: nonce, Recipient: recipient, TamperedAt: tamper}})
+	if st == "success" && tamper != "replayed-nonce" {
+		g.redeemed = append(g.redeemed, nonce)
+	}
 }
 
 // ---------------------------------------------------------------------------------------------- cases
@@ -449,4 +469,36 @@ func gen(r *rand.Rand, thorough bool, i int) []string {
 	}
 	genuine.Store(hashOps(g.lines), true)
 	return g.lines
+}
+
+// validMarker sends a correctly signed marker with the given nonce (used by the fixed corpus: redemption order and
+// replays are chosen explicitly).
+func (g *gstate) validMarker(nonce int64, recipient int, note string) string {
+	x := g.x
+	var cheap []int
+	for _, b := range g.blobbers {
+		if g.cheap[b] {
+			cheap = append(cheap, b)
+		}
+	}
+	var name string
+	var key int
+	for n, k := range g.assigner {
+		if name == "" || n < name {
+			name, key = n, k
+		}
+	}
+	if len(cheap) < 6 || name == "" {
+		return "no-setup"
+	}
+	ids := make([]string, 6)
+	for i := 0; i < 6; i++ {
+		ids[i] = x.idOf(cheap[i])
+	}
+	tokens := 0.25
+	sig := keys.signer[key].sign(markerMessage(x.idOf(recipient), tokens, nonce, ids))
+	marker := j(map[string]interface{}{"assigner": name, "recipient": x.idOf(recipient), "free_tokens": tokens, "nonce": nonce, "signature": sig, "blobbers": ids})
+	in := j(map[string]interface{}{"recipient_public_key": ucl[recipient].PublicKey, "marker": marker})
+	st, _, _ := g.emit(call{typ: "sc", sender: recipient, to: iStorage, fn: "free_allocation_request", fee: 1e8, in: in, note: note})
+	return st
 }
